@@ -88,7 +88,7 @@ def attrs(t):
         return A("fixed", t[1], nullable=t[1] == 0, buildnone=True, kind="none") if is_const(t[1]) else A("self", nullable=True, buildnone=True, kind="none", ctxfree=False)
     if k == "Seek":
         return A("zero", 0, nullable=True, buildnone=True, seeks=True, kind="int")
-    if k in ("OneOf", "NoneOf", "Hex", "HexDump"):
+    if k in ("OneOf", "NoneOf", "Hex", "HexDump", "Discard"):
         return attrs(t[1])
     if k == "Prefixed":
         a = attrs(t[2])
@@ -540,6 +540,29 @@ def TH(name):
     return ["this", name]
 
 
+def discard_terms():
+    """repeaters built with discard=True (nothing collected; bytes, positions, context effects and failures are unchanged):
+    alone, as the last sized member before zero-size members, and with a count taken from the context"""
+    S = lambda *ms: ["Struct", [list(m) for m in ms]]
+    elems = [BYTE, I(2, False, "b"), I(4, False, "l"), ["Bytes", 2], S(("a", BYTE), ("b", I(2, False, "b"))), ["VarInt"], ["CString", "ascii"],
+             ["Prefixed", BYTE, ["GreedyBytes"], False]]
+    out = []
+    for e in elems:
+        reps = [["Array", 0, e], ["Array", 2, e], ["Array", 3, e], ["GreedyRange", e]]
+        if e[0] in ("Int", "VarInt"):
+            reps.append(["RepeatUntil", ["objcmp", "==", 1], e])
+        for rp in reps:
+            dt = ["Discard", rp]
+            out.append(dt)
+            out.append(S(("h", BYTE), ("v", dt), ("pos", ["Tell"]), (None, ["Terminated"])))
+            out.append(S(("v", dt), ("t", BYTE)))
+        out.append(S(("n", BYTE), ("v", ["Discard", ["Array", ["this", "n"], e]]), ("pos", ["Tell"])))
+        out.append(["Array", 2, S(("n", BYTE), ("v", ["Discard", ["Array", ["this", "n"], e]]))])
+        out.append(["Prefixed", BYTE, ["Discard", ["GreedyRange", e]], False])
+        out.append(["FixedSized", 4, ["Discard", ["GreedyRange", e]]])
+    return out
+
+
 def tier4():
     """two- and three-member composites with every dependency pattern: (term, kwargs-list)"""
     S = lambda *ms: ["Struct", [list(m) for m in ms]]
@@ -724,6 +747,8 @@ def values(t, cap=6):
         return [(a, b) for a, b in values(t[1]) if (any(R.same_value(b, x) for x in t[2])) == (k == "OneOf") and not isinstance(a, bool)]
     if k in ("Hex", "HexDump"):
         return values(t[1], cap)
+    if k == "Discard":
+        return [(vin, []) for vin, _ in values(t[1], cap)]
     if k in ("Prefixed", "FixedSized", "Padded", "Aligned", "NullTerminated", "NullStripped", "ProcessXor", "ProcessRotateLeft",
              "ByteSwapped", "BitsSwapped", "Bitwise", "Bytewise", "OffsettedEnd"):
         return values(R.child(t) if R.child(t) is not None else t[3], cap)[:cap + 4]
